@@ -178,6 +178,12 @@ func (s *service) GetChunkHashes(ctx context.Context, addr boson.Address, pyrami
 		bmtWriter := bmt.NewBmtWriter(&noopChainWriter{})
 		for hash, data := range pyramid {
 			var ref boson.Address
+			// the hasher ignores everything beyond its capacity: an entry longer
+			// than a chunk with span would pass the check below on its prefix.
+			if len(data) > boson.ChunkWithSpanSize {
+				err = ErrInvalidPyramid
+				return
+			}
 			args := pipeline.PipeWriteArgs{Data: data}
 			err = bmtWriter.ChainWrite(&args)
 			if err != nil {
